@@ -104,12 +104,13 @@ def solve_all(eng, obls, timeout_ms):
     ctx = multiprocessing.get_context('fork')
     budget = timeout_ms * 1.6 / 1000.0 + 25.0
 
-    def child(conn, first):
+    def child(conn, first, shift):
         nconc = 0
         for i in range(first, n):
             o = obls[i]
             try:
-                r, backend, dt, model, det = solve(o.assumptions, o.goal, timeout_ms, quick=(o.kind in ('canary', 'policy') and z3.is_false(o.goal)))
+                r, backend, dt, model, det = solve(o.assumptions, o.goal, timeout_ms, quick=(o.kind in ('canary', 'policy') and z3.is_false(o.goal)),
+                                                   seed_shift=(shift if i == first else 0))
                 if o.kind == 'policy' and z3.is_false(o.goal) and r != 'proved':
                     # a structural rule (the code uses a per-address table other than by [self.addr]) is broken on a
                     # path the engine reached: no input is needed to show it; only a refuted path condition excuses it
@@ -130,9 +131,10 @@ def solve_all(eng, obls, timeout_ms):
             conn.send((i, r, backend, dt, det, ins, conc))
         conn.close()
 
+    hangs = {}      # obligation index -> how often the solver hung on it
     while start < n:
         parent, ch = ctx.Pipe(duplex=False)
-        pr = ctx.Process(target=child, args=(ch, start))
+        pr = ctx.Process(target=child, args=(ch, start, 3 * hangs.get(start, 0)))
         pr.start()
         ch.close()
         nxt = start
@@ -156,9 +158,13 @@ def solve_all(eng, obls, timeout_ms):
         if hung:
             pr.terminate()
             pr.join(5)
-            if nxt < n:
+            if nxt < n and hangs.get(nxt, 0) < 2 and obls[nxt].kind != 'canary':
+                # z3's sequence solver is unstable: the same query that hangs with one random seed is often decided in a
+                # second with another; retry this obligation (twice at most) in a fresh child with the seed plan rotated
+                hangs[nxt] = hangs.get(nxt, 0) + 1
+            elif nxt < n:
                 o = obls[nxt]
-                o.result, o.backend, o.time, o.detail = 'unknown', 'z3', budget, 'solver did not return within %.0fs (killed)' % budget
+                o.result, o.backend, o.time, o.detail = 'unknown', 'z3', budget, 'solver did not return within %.0fs (killed; %d retries with other seeds)' % (budget, hangs.get(nxt, 0))
                 o.model = None
                 o.model_inputs = {}
                 o.concrete = None
